@@ -101,7 +101,6 @@ Definition hdr_of_pkt (p : packet) : hdr := mkH (cmd p) (seq p) (typ p) (flg p) 
 Definition pkt_of_hdr (h : hdr) (b : body) (e : option Z) : packet :=
   mkPkt (hcmd h) (hseq h) (htyp h) (hflg h) (hnode h) b (hrefs h) e.
 
-Definition id_coders : coders := mkCo (fun b => b) (fun b => Some b) (fun b => b) (fun b => b).
 
 Definition in_int64 (z : Z) : bool := (- 2 ^ 63 <=? z) && (z <? 2 ^ 63).
 
@@ -173,7 +172,7 @@ Definition check_wire (codec thr : Z) (enc : bool) (h : hdr) (ec : option Z) (g 
            | Some e => set_errno e p0
            | None => with_body p0 (set_body (no_oracle wide) g)
            end in
-  let m := if codec =? 1 then wire_v1 id_coders thr enc enc p else wire_v2 id_coders thr enc enc p in
+  let m := if codec =? 1 then wire_v1 tag_coders thr enc enc p else wire_v2 tag_coders thr enc enc p in
   match m, obs with
   | None, None => VOk
   | Some q, Some (oh, ob, oerrno, oresend) =>
